@@ -433,10 +433,14 @@ def event_row(view, b, ev, fam, first, kind, evd, tol, band, cat=None, mband=Non
 
 
 # =========================================================================== (i) evidence-table families
-def _params(rng):
+def _params(rng, small=True):
+    """A non-default parameter set for a quarter of the families.  A gap > 0 makes estimate_major enumerate every
+    multiset within the gap: only for small catalogues (DPYD: 459 majors, three noisy copies, gap 0.3 never returns)."""
     kw = {}
     if rng.random() < 0.25:
         kw = rng.choice([{"gap": 0.1}, {"threshold": 0.3}, {"min_coverage": 1}, {"minor_add": 0.5}, {"gap": 0.3}])
+        if "gap" in kw and not small:
+            kw = {}
     return kw
 
 
@@ -466,7 +470,7 @@ def _table_task(task):
             noise = "level"
             E = perturb_abstract(view, rng, E, level=rng.choice([0.1, 0.3, 0.5]), drop=0.05 if m > 0.7 else 0.0,
                                  spurious=0.3 if m > 0.6 else 0.0)
-        params = _params(rng)
+        params = _params(rng, small=len(view.gene["hg19"].alleles) <= 40)
         evd = _digest(ev_rows(E))
         fam = f"{view.label}/{seed}/{f}"
         dele = view.gene["hg19"].deletion_allele()
